@@ -13,6 +13,7 @@ Base == [hs |-> <<"regular">>, ns |-> "NONS", hard |-> FALSE, ln |-> "ln", ru |-
          vform |-> "num", valx2 |-> "43200",   \* how the configuration writes cert_validity_sec (see Gensign!AcceptableVal)
          crep |-> "cert",       \* representation of the certificates the signer returns: concrete *ssh.Certificate ("cert"),
                                 \* *agent.Key holding the certificate blob ("agentkey"), another ssh.PublicKey implementation ("wrapper")
+         ctx |-> "bg",          \* request context handed to Run (see Gensign!CtxDone)
          wire |-> "json",       \* request message format: "json", or the text of the legacy HardKey attribute ("absent" = none)
          kalgo |-> "ECCP256"]   \* key algorithm of the stub handler's agent key (the regular handler uses the package default)
 \* the legacy message format cannot name a CA key algorithm: algorithm 0 (default) must have a slot
@@ -20,6 +21,7 @@ Ids0 == <<[a |-> 0, f |-> "lower", id |-> "slot-default"], [a |-> 1, f |-> "uppe
 Malformed == {"absent", "", "yes", "2", "TrUe", "tRUE", "on", "truee"}      \* ParseBool rejects these: not a hardware-key request
 LegacyWires == TrueSpellings \cup FalseSpellings \cup Malformed
 Legacy(w) == [Base EXCEPT !.wire = w, !.hard = (w \in TrueSpellings), !.algo = 0, !.ids = Ids0]
+NsTokens == {"NONS", "NSOK", "nons", "Nons", "nsok", "Nsok", "nsOK", "NSOK1", "NS_OK", "NONS1", "", " NONS", "NONS ", " NSOK"}
 KAlgos == {"RSA2048", "ECCP256", "ECCP384", "ECCP521", "ED25519"}
 
 FileCls == {"none", "U", "O", "bad"}
@@ -63,6 +65,8 @@ C01_Sc1 == {[Base EXCEPT !.dir = d, !.ans = a] : d \in AllDirs, a \in Ans1}
       \cup {[Base EXCEPT !.ns = n, !.hard = h, !.dir = d] : n \in {"NONS", "NSOK"}, h \in BOOLEAN, d \in {DirU, Dir("none", "none", "U", "none")}}
       \cup {[Base EXCEPT !.hs = hl, !.ans = a] : hl \in HL, a \in {"honest", "otherkey"}}
       \cup {Legacy(w) : w \in LegacyWires}
+      \* namespace-policy TOKENS of the forced command, through the real parameter parser
+      \cup {[Base EXCEPT !.ns = t, !.hs = hl] : t \in NsTokens, hl \in {<<"regular">>, <<"regular", "accept">>}}
       \* slow agents x every outcome: whoever does not prove possession gets nothing, however long it takes
       \cup {[Base EXCEPT !.delay = d, !.ans = a, !.dir = dd] : d \in {"short", "long"}, a \in {"honest", "nokey", "garbage", "otherkey", "failure"},
                                                              dd \in {DirU, Dir("O", "none", "none", "none")}}
@@ -125,6 +129,11 @@ C03t_Sc2(s) == IF ~s.more THEN {}
 C04_Sc1 == {[Base EXCEPT !.ncert = n, !.fok = TRUE] : n \in 0..3}         \* 0 = the CA replies OK without a certificate
       \cup {[Base EXCEPT !.hs = <<"accept">>, !.ncert = n, !.ncsr = k, !.fok = TRUE] : n \in 0..3, k \in 1..2}
       \cup {[Base EXCEPT !.hs = <<"accept">>, !.kalgo = k, !.ncert = 2, !.fok = TRUE] : k \in KAlgos}
+      \* request-context classes: done before Run, expiring during the agent phase (slow agent), cancelled between two signer calls
+      \cup {[Base EXCEPT !.hs = hl, !.ctx = "cancelled", !.ncert = 2] : hl \in {<<"regular">>, <<"accept">>, <<"reject", "regular">>}}
+      \cup {[Base EXCEPT !.hs = hl, !.ctx = "deadline", !.delay = "short"] : hl \in {<<"regular">>, <<"regular", "accept">>}}
+      \cup {[Base EXCEPT !.hs = <<"accept">>, !.ctx = "between", !.ncsr = 2, !.ncert = n] : n \in {1, 2}}
+      \cup {[Base EXCEPT !.hs = <<"accept">>, !.ctx = "between", !.ncsr = 1]}
       \cup {[Base EXCEPT !.hs = hl, !.crep = c, !.ncert = n, !.fok = TRUE] : hl \in {<<"regular">>, <<"accept">>}, c \in {"agentkey", "wrapper"}, n \in {1, 3}}
       \cup {[Base EXCEPT !.hs = <<"accept">>, !.sgen = g, !.fok = TRUE] : g \in {"CSR", "Conf", "Params", "empty"}}
       \cup {[Base EXCEPT !.hs = hl, !.ans = a, !.fok = TRUE] : hl \in {<<"regular", "accept">>, <<"reject", "regular">>}, a \in {"honest", "otherkey", "closed"}}
